@@ -107,6 +107,15 @@ func errLosses(p *Prog, f *ssa.Function, c *ssa.Call, e ssa.Value) []errLoss {
 			if x, _, ok := errorsIsCall(cf.Raw); ok && cf.Want && isE(x) {
 				return true
 			}
+			// a library predicate on e answered true (tikverr.IsErrNotFound(e), os.IsNotExist(e) ..): classified
+			if pc, ok := resolve(cf.Raw).(*ssa.Call); ok && cf.Want {
+				if sc := pc.Common().StaticCallee(); sc != nil && sc.Pkg != nil && !strings.HasPrefix(sc.Pkg.Pkg.Path(), modPath) &&
+					sc.Signature.Params().Len() == 1 && sc.Signature.Results().Len() == 1 && isErrorType(sc.Signature.Params().At(0).Type()) {
+					if bt, ok := sc.Signature.Results().At(0).Type().Underlying().(*types.Basic); ok && bt.Kind() == types.Bool && isE(pc.Common().Args[0]) {
+						return true
+					}
+				}
+			}
 			// type assertion on e succeeded: classified
 			if ex, ok := resolve(cf.Raw).(*ssa.Extract); ok && cf.Want {
 				if ta, ok := ex.Tuple.(*ssa.TypeAssert); ok && isE(ta.X) {
@@ -129,7 +138,30 @@ func errLosses(p *Prog, f *ssa.Function, c *ssa.Call, e ssa.Value) []errLoss {
 				if seenRet[r] {
 					return true
 				}
-				return ei < len(r.Results) && derivedFromErr(p, r.Results[ei], e, 0, map[ssa.Value]bool{})
+				if ei < len(r.Results) && errflowAcceptFailure && definitelyNonNilError(r.Results[ei]) {
+					return true
+				}
+				if ei >= len(r.Results) {
+					return false
+				}
+				// a result spilled to a cell (named results of a function with a defer): judge the stores that can
+				// reach this return, not every store to the cell
+				if ld, ok := r.Results[ei].(*ssa.UnOp); ok && ld.Op == token.MUL {
+					if cell, ok := ld.X.(*ssa.Alloc); ok {
+						if sts, _, ok := reachingStores(cell, ld); ok && len(sts) > 0 {
+							for _, st := range sts {
+								if errflowAcceptFailure && definitelyNonNilError(st.Val) {
+									return true
+								}
+								if derivedFromErr(p, st.Val, e, 0, map[ssa.Value]bool{}) {
+									return true
+								}
+							}
+							return false
+						}
+					}
+				}
+				return derivedFromErr(p, r.Results[ei], e, 0, map[ssa.Value]bool{})
 			},
 			bad: func(i ssa.Instruction) bool {
 				r, ok := i.(*ssa.Return)
@@ -213,4 +245,37 @@ func checkErrorPreservation(p *Prog, res *Result, rule string, inScope func(*ssa
 			res.bad(rule, construct, p.pos(losses[0].ret.Pos()), "a non-nil, unclassified error of this call can be lost: the function returns something else at "+strings.Join(where, "; ")+": "+why)
 		}
 	}
+}
+
+// errflowAcceptFailure: rules that only ask "is a failure turned into success?" set this while they run: a path that
+// returns some other, provably non-nil error is then not a loss.
+var errflowAcceptFailure bool
+
+// definitelyNonNilError: the value is built by an error constructor (or is a storage sentinel), never nil.
+func definitelyNonNilError(v ssa.Value) bool {
+	v = resolve(v)
+	if mi, ok := v.(*ssa.MakeInterface); ok {
+		v = resolve(mi.X)
+	}
+	switch x := v.(type) {
+	case *ssa.Call:
+		sc := x.Common().StaticCallee()
+		if sc == nil || sc.Pkg == nil {
+			return false
+		}
+		pp := sc.Pkg.Pkg.Path()
+		switch {
+		case pp == modPath+"/pkg/storage" && strings.HasPrefix(sc.Name(), "NewErr"):
+			return true
+		case (pp == "errors" || pp == "github.com/pkg/errors") && (sc.Name() == "New" || sc.Name() == "Errorf"):
+			return true
+		case pp == "fmt" && sc.Name() == "Errorf":
+			return true
+		}
+	case *ssa.UnOp:
+		if g := globalLoad(x); g != nil && strings.HasPrefix(g.Name(), "Err") {
+			return true
+		}
+	}
+	return false
 }
